@@ -50,3 +50,10 @@ class _Hooks(dict):
     def get(self, k, d=None):
         return _replay
 REPLAY = _Hooks()
+
+
+def _sweep(seed, rec):
+    return _code(dict(seed=seed, rounds=60))
+
+
+NATIVE_SWEEPS = {'*': _sweep}
